@@ -16,9 +16,9 @@ EXPLANATION = (
     "of the last solution column) this gives |H| <= 1 for every design and frequency. C16.2: the output is ifft(fft(x)*ifftshift(H)), the "
     "filtfilt correction multiplies H by exp(j*real) only, and retH returns that same H (grid/shift state: C02.3). C16.3: for the vdneff "
     "routes the fc and landa_D specifications give equal forms for L, dneff and the coupling terms under landa_D = c/fc, L from kL "
-    "inverts the later kL recomputation, and L from N is N*landa_D/(2*neff). C16.4: all 128 truthiness combinations of (fc, landa_D, dneff, "
-    "vdneff, kL, L, N) are evaluated on the parameter-resolution tree: every incomplete specification reaches raise ValueError, every "
-    "complete one falls through with L, landa_D, dneff, vdneff defined; a non-optical input raises TypeError. Not decided: agreement with "
+    "inverts the later kL recomputation, and L from N is N*landa_D/(2*neff). C16.4: FBG is interpreted (up to the solve_ivp call) for all 128 truthiness classes of (fc, landa_D, dneff, "
+    "vdneff, kL, L, N) - the parameters are only tested for truth: every incomplete specification has no constructing path and ends in "
+    "ValueError, every complete one constructs without arithmetic on a parameter that was not given; a non-optical input raises TypeError. Not decided: agreement with "
     "tanh^2/sinh^2 closed forms and solver tolerance (numerical integration).")
 TRUSTED = ["scipy.integrate.solve_ivp integrates the given system", "conservation of |R|^2-|S|^2 for a system of that matrix shape (mathematics)", "C02.3 typestate"]
 
